@@ -137,3 +137,25 @@ pub struct WriteCallback { pub x: u8 }
 //@item @ffi/ffi.rs | PortState | derive=Copy,Clone
 //@item @ffi/ffi.rs | MinTlsVersion | derive=Copy,Clone
 //@item @ffi/ffi.rs | CertificateMode | derive=Copy,Clone
+// state listeners (C function pointer + context): opaque; `notified(s)` = the C callback has been invoked with state `s`
+pub struct ClientStateListener { pub x: u8 }
+impl ClientStateListener {
+    pub uninterp spec fn notified(&self, s: ClientState) -> bool;
+    #[verifier::external_body]
+    pub fn on_change(&self, state: ClientState) ensures self.notified(state) { unimplemented!() }
+}
+pub struct PortStateListener { pub x: u8 }
+impl PortStateListener {
+    pub uninterp spec fn notified(&self, s: PortState) -> bool;
+    #[verifier::external_body]
+    pub fn on_change(&self, state: PortState) ensures self.notified(state) { unimplemented!() }
+}
+//@trusted ffi::{ClientStateListener, PortStateListener}::on_change: C callbacks, opaque
+// reconnect strategy parameters as passed by C (milliseconds)
+//@item @ffi/ffi.rs | RetryStrategy | derive=Clone
+impl RetryStrategy {
+//@fn @ffi/ffi.rs | RetryStrategy::min_delay | tags=C18
+//@|    ensures r == spec_millis(self.min_delay),
+//@fn @ffi/ffi.rs | RetryStrategy::max_delay | tags=C18
+//@|    ensures r == spec_millis(self.max_delay),
+}
